@@ -173,7 +173,9 @@ macro_rules! float_suite { ($s:expr, $F:ident, $PI:expr) => {{
     let s: &Section = $s;
     let eps = $F::EPSILON as f64;
     let tiny: $F = (2.0 as $F).powi(-60);
-    let vals: Vec<$F> = vec![0.0, -0.0, tiny, -tiny, 0.5, -0.5, 1.0, -1.0, 2.9999998, 3.0, -3.0, 6.0, -6.0, 7.25, -7.25, 359.9999, 360.0, -360.0, 720.0, 6.2831855, -6.2831855, 1e7, -1e7, 12345.678, -98765.43, 1048576.0 * 1048576.0, -1048576.0 * 1048576.0];
+    let vals: Vec<$F> = vec![0.0, -0.0, tiny, -tiny, 0.5, -0.5, 1.0, -1.0, 2.9999998, 3.0, -3.0, 6.0, -6.0, 7.25, -7.25, 359.9999, 360.0, -360.0, 720.0, 6.2831855, -6.2831855, 1e7, -1e7, 12345.678, -98765.43, 1048576.0 * 1048576.0, -1048576.0 * 1048576.0,
+        // quotients x/upper at and beyond 2^63 (no integer type holds them): 2^70, 3*2^68, 1e20 and their negatives
+        1180591620717411303424.0, -1180591620717411303424.0, 885443715538058477568.0, 1e20, -1e20];
     let ups: Vec<$F> = vec![1e-3, 0.5, 1.0, 3.0, ($PI + $PI) as $F, 360.0];
     let tol = |x: f64, up: f64| -> Q { vx::fl::qf(8.0 * eps * x.abs().max(up.abs())) };
     let qf = |v: $F| vx::fl::qf(v as f64);
@@ -314,7 +316,7 @@ fn main() {
         } }
         s.sample(json!({"call": "350.delta_angle_degrees(10)", "want": 20}));
     });
-    let rf = "value alphabet (+-0, +-min positive, +-1e-20, halves, exact multiples of the bounds, just below a multiple, 1e7, 1e15) x bounds {1e-3, 1/2, 1, 3, 2pi, 360}; the oracle converts the floats to exact rationals and tests range and congruence with tolerance 8 eps max(|x|,upper); clamp/is_between on a 14^3 grid incl. infinities and signed zeros; delta_angle(_degrees), wrapped_2pi on angle alphabets; NaN is not in the alphabet (not defined by the property)";
+    let rf = "value alphabet (+-0, +-min positive, +-1e-20, halves, exact multiples of the bounds, just below a multiple, 1e7, 2^40, and 2^70, 3*2^68, 1e20 whose quotient by the bound exceeds every integer type) x bounds {1e-3, 1/2, 1, 3, 2pi, 360}; the oracle converts the floats to exact rationals and tests range and congruence with tolerance 8 eps max(|x|,upper); clamp/is_between on a 14^3 grid incl. infinities and signed zeros; delta_angle(_degrees), wrapped_2pi on angle alphabets; NaN is not in the alphabet (not defined by the property)";
     rep.section("f64", rf, true, false, |s| { s.require_classes(&["negative", "beyond-upper", "in-range", "needs-wrap", "bounds-inverted(must panic)", "upper-nonpositive(must panic)"]); float_suite!(s, f64, std::f64::consts::PI) });
     rep.section("f32", rf, true, false, |s| float_suite!(s, f32, std::f32::consts::PI));
 
